@@ -153,7 +153,7 @@ Report(e, v) ==
 
 (* C03-KF8: cells without r= are all stored at A1 (the last one in document order wins).  Only modelled for a
    sheet that arrives in one batch and whose cells all lack r= : the cell at A1 shows the decode of the last cell,
-   every other position is empty. *)
+   every other position holds no value and no formula. *)
 LastRaw(items) == LET S == {i \in DOMAIN items : items[i].rp} IN items[CHOOSE i \in S : \A j \in S : j <= i]
 KF8Items(items) ==
   [i \in DOMAIN items |->
@@ -163,7 +163,8 @@ KF8Trig(e) == /\ e.noref /\ e.first /\ e.last
               /\ \E i \in DOMAIN e.items : e.items[i].rp /\ e.items[i].r = 1 /\ e.items[i].c = 1
               /\ \E i \in DOMAIN e.items : e.items[i].rp /\ (e.items[i].r # 1 \/ e.items[i].c # 1)
 KF8Out(e, sst, xfs) ==
-  /\ \A i \in DOMAIN e.items : (e.items[i].r # 1 \/ e.items[i].c # 1) => ~e.items[i].op
+  /\ \A i \in DOMAIN e.items : (e.items[i].r # 1 \/ e.items[i].c # 1) =>       \* (a hyperlink still makes an empty cell)
+        (~e.items[i].op \/ (e.items[i].obs.k = "blank" /\ ~e.items[i].obs.hf))
   /\ \A i \in DOMAIN e.items : e.items[i].rp => e.items[i].raw.f.k # "shared"
   /\ LET v == Fold(KF8Items(e.items), 1, sst, xfs, NoMasters, <<>>).v IN \A i \in DOMAIN v : "bad" \notin v[i]
 
@@ -184,11 +185,11 @@ Step(e) ==
          /\ cur' = cur /\ masters' = NoMasters
          /\ IF SheetOk(e) THEN TRUE ELSE Mismatch(l, <<"impl", "sheet", e.sheet, e.links, e.tcols, e.otcols>>)
     [] e.a = "Cells" ->
-         LET sst == FileEv.sst  xfs == FileEv.xfs
-             res == Fold(e.items, 1, sst, xfs, masters, <<>>)
-             anybad == \E i \in DOMAIN res.v : "bad" \in res.v[i]
-         IN /\ cur' = cur /\ masters' = res.m
-            /\ IF anybad /\ KFOn("C03-KF8") /\ KF8Trig(e) /\ KF8Out(e, sst, xfs)
+         (* (bound variables of a singleton set are evaluated once; a LET definition would be re-evaluated per use) *)
+         \E ctx \in {[sst |-> FileEv.sst, xfs |-> FileEv.xfs, items |-> e.items]} :
+         \E res \in {Fold(ctx.items, 1, ctx.sst, ctx.xfs, masters, <<>>)} :
+            /\ cur' = cur /\ masters' = res.m
+            /\ IF (\E i \in DOMAIN res.v : "bad" \in res.v[i]) /\ KFOn("C03-KF8") /\ KF8Trig(e) /\ KF8Out(e, ctx.sst, ctx.xfs)
                THEN KFHit("C03-KF8", l)
                ELSE Report(e, res.v)
     [] OTHER -> /\ cur' = cur /\ masters' = masters
